@@ -133,6 +133,9 @@ func (f *Frame) classifyLoop(li *loopInfo) {
 				li.iterVal = n.Iter
 				if r, ok := n.Iter.(*ssa.Range); ok {
 					li.rangeOf = f.nameOfLoaded(r.X)
+					if _, isMap := r.X.Type().Underlying().(*types.Map); isMap {
+						li.idxCell = "V:" + f.prefix + ":" + r.Name() + "#n"
+					}
 				}
 			}
 		}
@@ -570,9 +573,24 @@ func (f *Frame) rootsOfAddr(v ssa.Value, mod map[string]bool) bool {
 	return false
 }
 
+// mapKey names the heap of the maps of one type. Maps are grouped by (key sort, element sort); maps whose elements are
+// maps again additionally by their depth of nesting (Go's typing keeps such levels apart, and the verifier needs to know
+// that a write to an inner map cannot hit an outer one), written M:K:V#<depth>.
 func (f *Frame) mapKey(t types.Type) string {
 	m := t.Underlying().(*types.Map)
-	return "M:" + f.vc.sortOf(m.Key()) + ":" + f.vc.sortOf(m.Elem())
+	k := "M:" + f.vc.sortOf(m.Key()) + ":" + f.vc.sortOf(m.Elem())
+	d := 0
+	for e := m.Elem(); ; d++ {
+		em, ok := e.Underlying().(*types.Map)
+		if !ok {
+			break
+		}
+		e = em.Elem()
+	}
+	if d > 0 {
+		k += fmt.Sprintf("#%d", d)
+	}
+	return k
 }
 
 // callMods adds the cells a call may modify.
@@ -709,6 +727,22 @@ func (f *Frame) loopHeader(li *loopInfo) {
 		}
 	}
 	li.modSet = mod
+	// range over a map: the set of keys produced so far is arbitrary at the head of an arbitrary iteration (it is empty
+	// on entry, which is the state the entry obligations above were evaluated in)
+	if li.kind == "maprange" && li.iterVal != nil {
+		if r, ok := li.iterVal.(*ssa.Range); ok {
+			if mt, ok := r.X.Type().Underlying().(*types.Map); ok {
+				visKey := "V:" + f.prefix + ":" + r.Name()
+				visSort := "(Array " + vc.sortOf(mt.Key()) + " Bool)"
+				vc.cellSort[visKey] = visSort
+				f.cur.cells[visKey] = vc.fresh(visKey+"@loop"+fmt.Sprint(li.header.Index), visSort)
+				cnt := vc.fresh(visKey+"#n@loop"+fmt.Sprint(li.header.Index), SInt)
+				f.cur.cells[visKey+"#n"] = cnt
+				vc.assume(sx("<=", "0", cnt))
+				li.idxCell = visKey + "#n"
+			}
+		}
+	}
 	// alive only grows: what was alive before the loop is alive in every iteration
 	if mod["ghost:alive"] {
 		if cur, ok := f.cur.cells["ghost:alive"]; ok {
@@ -922,6 +956,15 @@ func (f *Frame) exec(ins ssa.Instruction) {
 		}
 	case *ssa.Range:
 		f.vals[x] = f.val(x.X)
+		if mt, ok := x.X.Type().Underlying().(*types.Map); ok {
+			// number of keys produced so far, and the size of the map when the iteration starts
+			m := f.sval(x.X)
+			f.cur.cells["V:"+f.prefix+":"+x.Name()+"#n"] = "0"
+			f.vc.cellSort["V:"+f.prefix+":"+x.Name()+"#n"] = SInt
+			f.cur.cells["V:"+f.prefix+":"+x.Name()+"#n0"] = f.mapLen(f.cur, m.t, x.X.Type())
+			f.vc.cellSort["V:"+f.prefix+":"+x.Name()+"#n0"] = SInt
+			_ = mt
+		}
 	case *ssa.Next:
 		f.execNext(x)
 	case *ssa.Select:
@@ -1428,6 +1471,27 @@ func (f *Frame) mapContent(st *State, ref string, t types.Type) (string, Sort) {
 
 func (f *Frame) mapKeyTerm(k Val, t types.Type) string { return k.t }
 
+// mapLen is len(m): the cardinality of the key set (an uninterpreted function of it), 0 for the nil map.
+func (f *Frame) mapLen(st *State, ref string, t types.Type) string {
+	vc := f.vc
+	mt := t.Underlying().(*types.Map)
+	mc, ms := f.mapContent(st, ref, t)
+	fn := "card_" + ms
+	vc.declareFun(fn, []Sort{"(Array " + vc.sortOf(mt.Key()) + " Bool)"}, SInt)
+	c := sx(fn, sx("dom_"+ms, mc))
+	vc.assume(sx("<=", "0", c))
+	return ite(eq(ref, "0"), "0", c)
+}
+
+func (f *Frame) loopOfIter(it ssa.Value) *loopInfo {
+	for _, li := range f.loops {
+		if li.iterVal == it {
+			return li
+		}
+	}
+	return nil
+}
+
 func (f *Frame) execLookup(x *ssa.Lookup) {
 	vc := f.vc
 	if _, isStr := x.X.Type().Underlying().(*types.Basic); isStr {
@@ -1511,6 +1575,17 @@ func (f *Frame) execNext(x *ssa.Next) {
 	vc.assume(implies(not(okc), or(eq(m.t, "0"), fmt.Sprintf("(forall ((rk %s)) (! (=> (select %s rk) (select %s rk)) :pattern ((select %s rk))))", ks, dom, vis, dom))))
 	vc.assume(vc.S.wellTyped(k, mt.Key(), 1))
 	f.cur.cells[visKey] = ite(okc, sx("store", vis, k, "true"), vis)
+	// cardinality: a map that is not written during the iteration produces exactly as many keys as it had when the
+	// iteration started (Go spec, "for statements with range clause")
+	if cnt, ok := f.cur.cells[visKey+"#n"]; ok {
+		if n0, ok := f.cur.cells[visKey+"#n0"]; ok {
+			if li := f.loopOfIter(x.Iter); li != nil && li.modSet != nil && !li.modSet[f.mapKey(r.X.Type())] {
+				vc.assume(implies(okc, sx("<", cnt, n0)))
+				vc.assume(implies(not(okc), eq(cnt, n0)))
+			}
+		}
+		f.cur.cells[visKey+"#n"] = ite(okc, sx("+", cnt, "1"), cnt)
+	}
 	v := vc.fresh("rangeval", vs)
 	vc.assume(implies(okc, eq(v, sx("select", sx("val_"+ms, mc), k))))
 	vc.assume(vc.S.wellTyped(v, mt.Elem(), 1))
